@@ -20,3 +20,10 @@ package fs
 //@   modifies fresh
 //@   ensures result1 == nil && oid != EmptyObjectSHA256 ==> result0 == objpath(oid)
 //@   ensures result1 == nil && oid == EmptyObjectSHA256 ==> result0 == devnull
+
+// C09: the temporary directory is <storage>/tmp, computed once and cached.
+//@ func (*Filesystem).TempDir
+//@   props C01 C04 C08 C09
+//@   requires @inv f.tmpdir == "" || isauxdir(f.tmpdir)
+//@   modifies fresh, field f.tmpdir
+//@   ensures isauxdir(result)
